@@ -27,7 +27,7 @@ RULE = ("per run a history of 6-40 operations: create mode (ECB/CBC/CFB-s/OFB/CT
 REAL = ["pyaes.aes (AES, all modes, Counter)", "pyaes.blockfeeder (Encrypter, Decrypter, stream pumps)", "pyaes.util",
         "register_crypto_plugin.AES128Proxy via bec2format.crypto.create_AES128"]
 STUBS = ["input/output streams: SimByteStream (short reads)", "RefAES (bit-level reference)"]
-PROBES = ["key-in-reused-buffer", "both-directions-on-one-object", "ctr-wrap", "cfb-partial-final-segment", "feeder-chunk-zero", "short-read", "adapter-reused",
+PROBES = ["shared-adapter-two-threads", "key-in-reused-buffer", "both-directions-on-one-object", "ctr-wrap", "cfb-partial-final-segment", "feeder-chunk-zero", "short-read", "adapter-reused",
           "adapter-trailing-zero-plaintext", "interleaved-objects", "key-24", "key-32", "pump-block-size-1",
           "decrypter-pkcs7"]
 ASSUMPTIONS = ["sharing one *mode* object between two feeders has no defined result and is not generated"]
@@ -37,6 +37,13 @@ MODES = ["ecb", "cbc", "cfb", "ofb", "ctr"]
 
 def gen(st, tier):
     w = st["workload"]
+    if w.random() < 0.04:
+        # two threads call one shared adapter object (each call is specified to be independent of any other)
+        from sim import conc
+        pre, ch = conc.sched_spec(st["schedule"])
+        return {"conc": True, "key": rbytes(w, 16).hex(), "iv": rbytes(w, 16).hex() if w.random() < 0.5 else None,
+                "calls": [[w.choice(["enc", "mac", "dec"]), rbytes(w, 16 * w.choice([1, 2, 3])).hex()] for _ in range(2)],
+                "preempt": pre, "choices": ch}
     ops = []
     nobj = 0
     objs = []   # (id, kind, info)
@@ -169,7 +176,55 @@ def _expected_feeder(o, total):
     raise AssertionError
 
 
+def _run_conc(case):
+    from sim import conc
+    out = Outcome()
+    key = bytes.fromhex(case["key"])
+    iv = bytes.fromhex(case["iv"]) if case["iv"] else None
+
+    def make_bodies(s):
+        shared = env.crypto.create_AES128(key, iv)
+
+        def body(i):
+            what, d = case["calls"][i]
+            d = bytes.fromhex(d)
+
+            def fn():
+                return bytes({"enc": shared.encrypt, "mac": shared.mac, "dec": shared.decrypt}[what](d))
+            return fn
+        return [body(0), body(1)]
+    try:
+        dry, cc, pre = conc.run_conc(make_bodies, case["preempt"], case["choices"], first=0)
+    finally:
+        env.restore_registry()
+    npre = sum(1 for d in cc.decisions if d[3] == "preempt")
+    out.fired["preempt"] += npre
+    out.nontrivial = npre > 0
+    out.probes["shared-adapter-two-threads"] += 1
+    out.ev("conc", tuple(cc.decisions), cc.aborted, [t.result.hex() if t.result else None for t in cc.threads])
+    narrow = dict(case, preempt=[["abs", p] if isinstance(p, int) else list(p) for p in pre])
+    if any(t.exc is not None for t in dry.threads):
+        out.ev("sequential-raises")
+        return out
+    for i, t in enumerate(cc.threads):
+        what, d = case["calls"][i]
+        d = bytes.fromhex(d)
+        if cc.aborted or t.exc is not None:
+            out.fail("C16.concurrent", "raises", "thread %d: %s %r" % (i, cc.aborted, t.exc), narrow)
+            continue
+        z = iv or bytes(16)
+        exp = {"enc": lambda: refaes.cbc_enc(key, z, refaes.zpad(d)), "mac": lambda: refaes.cbc_enc(key, z, refaes.zpad(d))[-16:],
+               "dec": lambda: refaes.cbc_dec(key, z, d)}[what]()
+        if t.result != exp:
+            out.fail("C16.adapter-differs", "concurrent-" + what,
+                     "thread %d: adapter.%s on an object shared with another thread returned %s, zero-padded CBC says %s "
+                     "(schedule %s)" % (i, what, t.result.hex(), exp.hex(), cc.decisions), narrow)
+    return out
+
+
 def run(case):
+    if case.get("conc"):
+        return _run_conc(case)
     import random
     out = Outcome()
     env.restore_registry()
@@ -429,6 +484,11 @@ def _pump(out, o):
 
 
 def shrink(case):
+    if case.get("conc"):
+        pre = case["preempt"]
+        for i in range(len(pre)):
+            yield dict(case, preempt=pre[:i] + pre[i + 1:])
+        return
     ops = case["ops"]
     for i in range(len(ops) - 1, -1, -1):
         if ops[i][0] == "new":
